@@ -148,12 +148,13 @@ def run_prefetch_once(ctx, mod, cfg, sched, rng):
       if not cthread.is_alive():
         break
       cond = cond_of()
-      # state-based deadlock: every live participant is inside Condition.wait (nobody left to notify)
+      # state-based deadlock: every live participant is inside Condition.wait and no wake-up is in flight (a notified waiter
+      # that has not been scheduled yet is still listed as waiting - on a loaded machine for longer than any fixed grace time)
       dead = False
       if cond is not None and cond.acquire(timeout=0.2):
         try:
           live = [t for t in participants() if t.is_alive()]
-          dead = bool(live) and all(t.ident in cond.waiting for t in live)
+          dead = bool(live) and all(t.ident in cond.waiting for t in live) and cond.pending == 0
         finally:
           cond.release()
       stable = stable + 1 if dead else 0
